@@ -115,6 +115,33 @@ def _edit(a, b, x):
     return rt.fin(ok, why)
 
 
+def ob_surrogate(a: int, b: int, x: int) -> bool:
+    """post: _"""
+    return rt.run(_surrogate, a, b, x)
+
+
+def _surrogate(a, b, x):
+    """Ranges with an end between the two units of a surrogate pair (excluded everywhere else)."""
+    kind = P["kind"]
+    nx = ops.xrange_of(C, kind)
+    if not (0 <= a <= b <= C.size and 0 <= x < nx) or not (C.is_split(a) or C.is_split(b)):
+        return rt.SKIP
+    if kind == "insert" and a != b:
+        return rt.SKIP
+    x = rt.pick(x, 0, nx - 1)
+    if x not in P.get("xs", [0]):
+        return rt.SKIP
+    tr = Transform(C.doc)
+    try:
+        ops.run_op(C, tr, kind, a, b, x)
+    except UnicodeDecodeError:
+        if rt.known_mode("C11-position-splits-surrogate-pair"):
+            return rt.fin(tr.doc is C.doc and not tr.steps, "failed edit changed the document")
+        raise
+    w = why_invalid(tr.doc, C.V)
+    return rt.fin(w is None, w)
+
+
 def ob_cross(a: int, b: int, c: int, d: int) -> bool:
     """post: _"""
     return rt.run(_cross, a, b, c, d)
@@ -177,6 +204,9 @@ def obligations(tier, seed):
                 for lo in range(0, size + 1, 4):
                     obs.append({"name": "%s/%s#%d/%d" % (kind, sn, i, lo), "fn": "ob_edit",
                                 "P": {"schema": sn, "doc": i, "kind": kind, "alo": lo, "ahi": lo + 4}, "timeout": T})
+    for kind in ("delete", "replace", "insert", "replace_range"):
+        obs.append({"name": "surrogate/%s/list#7" % kind, "fn": "ob_surrogate",
+                    "P": {"schema": "list", "doc": 7, "kind": kind, "xs": [0, 2]}, "timeout": T})
     if tier == "quick":
         # slices that are open through an isolating node down into its text (last entry of the table / iso slice catalogues)
         for (sn, i) in [("table", 0), ("iso", 1)]:
